@@ -686,24 +686,45 @@ func checkC12(c *Ctx) {
 			r.Unres("R12e", cmd, "", "package not loaded")
 			continue
 		}
-		// the func literal handed to options.Run must return gen.Generate() (or its error)
+		// the callback handed to (protogen.Options).Run — a function literal or a named function — must return
+		// Generate() (or its error)
 		ok := false
-		for _, f := range pk.Syntax {
-			ast.Inspect(f, func(n ast.Node) bool {
-				lit, isLit := n.(*ast.FuncLit)
-				if !isLit {
-					return true
-				}
-				ast.Inspect(lit.Body, func(m ast.Node) bool {
-					if ret, isRet := m.(*ast.ReturnStmt); isRet && len(ret.Results) == 1 {
-						if call, isCall := ast.Unparen(ret.Results[0]).(*ast.CallExpr); isCall {
-							if cal := Callee(pk.TypesInfo, call); cal != nil && cal.Name() == "Generate" {
-								ok = true
-							}
+		returnsGenerate := func(body *ast.BlockStmt) bool {
+			hit := false
+			ast.Inspect(body, func(m ast.Node) bool {
+				if ret, isRet := m.(*ast.ReturnStmt); isRet && len(ret.Results) == 1 {
+					if call, isCall := ast.Unparen(ret.Results[0]).(*ast.CallExpr); isCall {
+						if cal := Callee(pk.TypesInfo, call); cal != nil && cal.Name() == "Generate" {
+							hit = true
 						}
 					}
+				}
+				return true
+			})
+			return hit
+		}
+		for _, f := range pk.Syntax {
+			ast.Inspect(f, func(n ast.Node) bool {
+				call, isCall := n.(*ast.CallExpr)
+				if !isCall || len(call.Args) != 1 {
 					return true
-				})
+				}
+				cal := Callee(pk.TypesInfo, call)
+				if cal == nil || cal.Name() != "Run" || cal.Pkg() == nil || !strings.HasSuffix(cal.Pkg().Path(), "compiler/protogen") {
+					return true
+				}
+				switch cb := ast.Unparen(call.Args[0]).(type) {
+				case *ast.FuncLit:
+					if returnsGenerate(cb.Body) {
+						ok = true
+					}
+				case *ast.Ident:
+					if fn, isFn := pk.TypesInfo.ObjectOf(cb).(*types.Func); isFn {
+						if d := c.P.Decls[fn]; d != nil && d.Body != nil && returnsGenerate(d.Body) {
+							ok = true
+						}
+					}
+				}
 				return true
 			})
 		}
